@@ -83,6 +83,19 @@ MANIFEST = {
 
 CT = "application/vnd.apache.arrow.stream"
 TOKEN_KEY = b"c" * 32
+
+
+_FAIL_COUNT: dict[str, int] = {}
+
+
+def _fail(ctx: Any, case: Any, key: str, what: str) -> None:
+    """Report a property failure; at most 3 cases per key reach the (bounded) failure list, the rest are counted."""
+    n = _FAIL_COUNT.get(key, 0) + 1
+    _FAIL_COUNT[key] = n
+    if n <= 3:
+        ctx.fail(case, key, what)
+    else:
+        ctx.notes.setdefault("further_failures_per_key", {})[key] = n - 3
 HUGE = 10**9
 EOS = 8
 
@@ -455,7 +468,7 @@ def run_unary_like(ctx: Any, apps: Apps, kind: str, sc: dict[str, Any], m: dict[
     case = {"kind": kind, "scenario": sc, "cfg": cfg}
     nontrivial = cfg["wireCap"] is not None or cfg["extCap"] is not None
     if r.status_code != 200:
-        ctx.fail(case, f"C16:{kind}:http-status:{r.status_code}", f"unexpected HTTP status {r.status_code}: {r.content[:200]!r}")
+        _fail(ctx, case, f"C16:{kind}:http-status:{r.status_code}", f"unexpected HTTP status {r.status_code}: {r.content[:200]!r}")
         ctx.case(case, nontrivial=nontrivial, tags=(f"path:{kind}",))
         return
     schema, batches = _decode(r.content)
@@ -468,17 +481,17 @@ def run_unary_like(ctx: Any, apps: Apps, kind: str, sc: dict[str, Any], m: dict[
     # ---- O: the property
     wc, ec = cfg["wireCap"], cfg["extCap"]
     if k == "ok" and wc is not None and body > wc:
-        ctx.fail(case, f"C16:{kind}:body-exceeds-wire-cap", f"successful {kind} body of {body} bytes > max_response_bytes={wc}")
+        _fail(ctx, case, f"C16:{kind}:body-exceeds-wire-cap", f"successful {kind} body of {body} bytes > max_response_bytes={wc}")
     if k == "ok" and ec is not None and sum(raw) > ec:
-        ctx.fail(case, f"C16:{kind}:uploaded-exceeds-external-cap",
+        _fail(ctx, case, f"C16:{kind}:uploaded-exceeds-external-cap",
                  f"successful {kind} response uploaded {raw} bytes > max_externalized_response_bytes={ec}")
     if k == "ok" and ec is not None and cfg["storage"] == "on" and sum(u[0] for u in ups) > ec:
-        ctx.fail(case, f"C16:{kind}:received-exceeds-external-cap", f"storage received {[u[0] for u in ups]} bytes > cap {ec}")
+        _fail(ctx, case, f"C16:{kind}:received-exceeds-external-cap", f"storage received {[u[0] for u in ups]} bytes > cap {ec}")
     if k == "errExt" and ups:
-        ctx.fail(case, f"C16:{kind}:refused-after-upload",
+        _fail(ctx, case, f"C16:{kind}:refused-after-upload",
                  f"response refused for the external cap ({msg[:90]}) after the storage received {raw} bytes")
     if k == "errMethod":
-        ctx.fail(case, f"C16:{kind}:unexpected-error", f"method error in a scenario that does not raise: {msg[:200]}")
+        _fail(ctx, case, f"C16:{kind}:unexpected-error", f"method error in a scenario that does not raise: {msg[:200]}")
     # ---- K (model calls are batched; see `flush`)
     a: dict[str, Any] = {"cfg": _model_cfg(cfg), "pre": m["pre"], "eos": EOS, "errBody": 0}
     if kind == "unary":
@@ -505,7 +518,7 @@ def run_producer(ctx: Any, apps: Apps, sc: dict[str, Any], m: dict[str, Any], cf
         case = {"kind": "producer", "scenario": sc, "cfg": cfg, "turn": turn}
         nontrivial = cfg["wireCap"] is not None or cfg["extCap"] is not None
         if r.status_code != 200:
-            ctx.fail(case, f"C16:producer:http-status:{r.status_code}", f"unexpected HTTP status {r.status_code}: {r.content[:200]!r}")
+            _fail(ctx, case, f"C16:producer:http-status:{r.status_code}", f"unexpected HTTP status {r.status_code}: {r.content[:200]!r}")
             ctx.case(case, nontrivial=nontrivial, tags=("path:producer",))
             return
         schema, batches = _decode(r.content)
@@ -531,13 +544,13 @@ def run_producer(ctx: Any, apps: Apps, sc: dict[str, Any], m: dict[str, Any], cf
         wc, ec = cfg["wireCap"], cfg["extCap"]
         # ---- O
         if ec is not None and sum(raw) > ec:
-            ctx.fail(case, f"C16:producer:uploaded-exceeds-external-cap:{k}",
+            _fail(ctx, case, f"C16:producer:uploaded-exceeds-external-cap:{k}",
                      f"producer turn ({k}) uploaded {raw} bytes > max_externalized_response_bytes={ec}")
         if wc is not None and body > max(wc, m["pre"]) + last + sentinel + EOS:
-            ctx.fail(case, "C16:producer:body-exceeds-wire-cap-by-more-than-last-batch",
+            _fail(ctx, case, "C16:producer:body-exceeds-wire-cap-by-more-than-last-batch",
                      f"producer body {body} > max(cap {wc}, pre {m['pre']}) + last {last} + sentinel {sentinel} + EOS")
         if k == "errWire":
-            ctx.fail(case, "C16:producer:wire-cap-error", "a producer's wire cap is soft; it must not surface as an error")
+            _fail(ctx, case, "C16:producer:wire-cap-error", "a producer's wire cap is soft; it must not surface as an error")
         # ---- K (model calls are batched; see `flush`)
         got = {"kind": k, "uploads": raw, "iterations": calls, "sentinel": bool(sentinel)}
         if k == "ok":
@@ -715,6 +728,7 @@ def _thaw(real: Any) -> None:
 
 
 def run(ctx: Any) -> None:
+    _FAIL_COUNT.clear()
     real_time = _quiet_and_freeze()
     rng = ctx.rng
     apps = Apps()
